@@ -345,6 +345,33 @@ pub const JUNK: &[&str] = &[
     "@page :first { margin: 1in; } ",
 ];
 
+/// Well-formed declarations of properties html2text does not model, or of properties it models with a
+/// value that is invalid in CSS itself (never a valid value the library merely lacks); each is ignored by
+/// CSS error handling. (`white-space` with an unrecognised value is deliberately not in the list: the library
+/// maps every value it does not know - nowrap, pre-line, ... - to `normal`, a declared approximation.) (checked one by one against the unchanged library, before and after a
+/// valid declaration).
+pub const UNKNOWN_DECLS: &[&str] = &[
+    "frob:nicate 3px",
+    "-webkit-foo: bar(1, 2) !important",
+    "margin: 0 auto",
+    "font: 12px/1.5 \"A;B\", serif",
+    "grid-template-areas: \"a b\" \"c d\"",
+    "width: calc(100% - (2 * 3px))",
+    "font-family: \"}\"",
+    "font-family: '{'",
+    "background-image: url(x.png)",
+    "x: url(\"a;b\")",
+    "margin:-0.5em",
+    "filter: progid:DXImageTransform.Microsoft.gradient(startColorstr='#80000000', endColorstr='#80000000')",
+    "color: bogus",
+    "color: 12px",
+    "display: 7",
+    "height: 5",
+    "overflow: #fff",
+    "background-color: #12",
+    "_color: #00f",
+];
+
 pub fn sheet_to_css(sheet: &Sheet, v: &Variant) -> String {
     let ws = |n: usize| -> &'static str {
         match v.layout {
@@ -380,9 +407,13 @@ pub fn sheet_to_css(sheet: &Sheet, v: &Variant) -> String {
         s.push_str(ws(k));
         k += 1;
         let n = rule.decls.len();
+        // an unknown (or known but invalid) declaration before the first or after the last real one
+        let unk = UNKNOWN_DECLS[(v.nth_style as usize + k) % UNKNOWN_DECLS.len()];
+        let unk_first = (v.nth_style as usize + k / 2) % 3 != 0;
         for (i, d) in rule.decls.iter().enumerate() {
-            if v.unknown_props && i == 0 {
-                s.push_str("frob:nicate 3px;");
+            if v.unknown_props && i == 0 && unk_first {
+                s.push_str(unk);
+                s.push(';');
                 s.push_str(ws(k));
             }
             s.push_str(&d.to_css(v.upper));
@@ -391,6 +422,11 @@ pub fn sheet_to_css(sheet: &Sheet, v: &Variant) -> String {
                 s.push_str(ws(k));
                 k += 1;
             } else {
+                if v.unknown_props && !unk_first {
+                    s.push(';');
+                    s.push_str(ws(k));
+                    s.push_str(unk);
+                }
                 match v.final_semi {
                     0 => s.push(';'),
                     1 => {}
